@@ -134,6 +134,7 @@ def _coeffs(ret):
 def check_polyarith(res, facts):
     rule = res.rule("R-POLYARITH", "DensePolynomial &a + &b, &a - &b, naive_mul and evaluate are the coefficient-level ring operations for small degrees, inputs in general position [polynomial-constant propagation over the MIR]", 0)
     fns = [f for f in facts.fns(unit="ws", crate="ark_poly") if f.kind != "Closure" and "::tests::" not in f.id]
+    proved = set()
     a = lambda i, d: Q.var("a%d" % i) if i <= d else Q.const(0)
     b = lambda i, d: Q.var("b%d" % i) if i <= d else Q.const(0)
 
@@ -194,6 +195,7 @@ def check_polyarith(res, facts):
                 break
         if verdict is None:
             rule.ok(key, "16 degree pairs: coefficient k is sum_{i+j=k} a_i b_j", cand[0].loc)
+            proved.add("naive_mul")
         elif verdict[0] == "bad":
             rule.bad(key, verdict[1], cand[0].loc)
         else:
@@ -225,3 +227,4 @@ def check_polyarith(res, facts):
             rule.bad(key, verdict[1], cand[0].loc)
         else:
             rule.noverdict(key, "shape not modelled (%s)" % verdict[1], cand[0].loc)
+    return proved
